@@ -195,6 +195,10 @@ def templates(uni: qgen.Universe, rng: random.Random) -> List[T]:
         add(f"ds.Select(lambda e: {C}.Select(lambda j: j.vals().First() if j.vals().Count() > 0 else -1.0))", ["first", "ifexp", "guard", "inner_first"])
         add(f"ds.Select(lambda e: {C}.Select(lambda j: j.vals().First()))", ["first", "inner_first"])
         add(f"ds.Select(lambda e: {C}.Select(lambda j: j.vals().Where(lambda v: v > {th}).First()))", ["first", "inner_first", "where"])
+        # a partial operation inside the filter BEFORE a First: once the first element is found the query asks nothing of
+        # the elements after it
+        add(f"ds.Select(lambda e: {C}.Where(lambda j: j.vals()[0] > {th}).First().{meth}())", ["first", "index", "where", "partial_filter_before_first"])
+        add(f"ds.Select(lambda e: {C}.Where(lambda j: j.hits().First() > 0).First().{meth}())", ["first", "where", "inner_first", "partial_filter_before_first"])
         add(f"ds.Select(lambda e: {C}.Select(lambda j: j.vals()[{k}]))", ["index"])
         add(f"ds.Select(lambda e: {C}.Select(lambda j: j.hits()[{k}] + 1))", ["index"])
         # an index before the beginning is as undefined as one past the end (ElementAt semantics): never a substitute
